@@ -69,6 +69,13 @@ def candidates():
                 d = os.path.join(inc4, prop, v)
                 if os.path.exists(os.path.join(d, "patch.diff")):
                     out.append((f"{prop}-{'G' if v == 'A' else 'H'}", prop, d))
+    inc5 = os.path.join(VERIF, "seeded", "_incoming5")
+    if os.path.isdir(inc5):
+        for prop in sorted(os.listdir(inc5)):
+            for v in sorted(os.listdir(os.path.join(inc5, prop))):
+                d = os.path.join(inc5, prop, v)
+                if os.path.exists(os.path.join(d, "patch.diff")):
+                    out.append((f"{prop}-{'I' if v == 'A' else 'J'}", prop, d))
     for h, prop in HIST.items():
         d = os.path.join(VERIF, "seeded", h)
         if os.path.exists(os.path.join(d, "patch.diff")):
